@@ -60,6 +60,9 @@ CHECKS = {
  "C03": dict(tech="static analysis: provenance table (backward slices to tagged sources) for the four timestamps at their four use sites, written-only-after-acceptance must-pass rule for the remembered triple, request-copy and guard recognition, fresh-socket rule on SSA",
    text="The clause 'all four timestamps belong to one exchange' decided exactly as a provenance table both clients must match: same (t0..t3) at validation, offset, delay and filter; basic arm = this request's kernel/soft tx time, this response's fields, this datagram's kernel/soft rx time; interleaved arm = remembered triple (or the interleaved request's copies) and this response's transmit field; one era reference taken before the send; the triple is written once, only behind ValidateResponseTimestamps==nil, from this exchange's values; interleaved request copies the triple under mode/reference/age guard; own port-0 socket per exchange. The half-RTT bound and histories are not decided.",
    ref="DESIGN.md §4 C03"),
+ "C08": dict(tech="static analysis: interprocedural taint (content/length) from the datagram and stream reads, control-dependence rule for fatal sinks, bounds obligations discharged by the compiler's bounds-check elimination and a linear prover (guard facts, reaching stores, phi/merge/call case splits, callee summaries, field invariants, caller lifting), cursor-progress rule, listener-read rule on SSA",
+   text="Structural necessary conditions decided exactly for their clause, over the 14 receive loops/clients and everything reachable from them with network-derived data: (fatal) no panic / os.Exit / log-fatal is control dependent on a condition over network data, except behind library errors listed as assumed-infallible with a reason; (bounds) every index, slice, fixed-width read, unsafe.Pointer access and AEAD nonce length on network-sized data is in range - proved by the Go compiler's own bounds-check elimination or by the prover from dominating guards, or at every call site; (progress) every loop over network bytes advances its cursor by >= 1; (listener) the SCION PacketConn read used by the QUIC listener returns an error only for socket errors; (sources) the set of network reads is as inventoried. Panics inside library code (gopacket/slayers, quic-go, crypto/tls, miscreant other than nonce length) and resource exhaustion are not decided.",
+   ref="DESIGN.md §4 C08"),
 }
 NA = {
  "C04": "all clauses are value arithmetic over time.Time/uint32 (truncation direction, era unfolding, order preservation); no structural or finite-domain clause; matching the constants would be a frozen-fragment proxy",
